@@ -23,7 +23,9 @@ func TestC10(t *testing.T) {
 	rec.SetRule("registry: rapid-generated op lists (<=30 ops: register[replace]/registerWithEndpoint/remove/invalid{empty URL, no scheme, no host, empty model name at position i, cancelled ctx, remove with cancelled ctx / empty URL} and listings with nil entries) over 3 endpoint URLs x 12-entry collision alphabet (a, A, a:latest, b, x::y, x, *, d@2 digests, p/q/b sharing one digest) x {memory, unified} x {sequential, concurrent rounds, concurrent burst; 2-4 goroutines owning disjoint endpoints}; compared with map[endpoint]set(name) after every step/round at quiescence. Non-trivial = a replace-with-fewer/replace-with-empty/remove that drops a model >=2 endpoints shared, or a rejected update after a successful one; distinct by full case. " +
 		"filter: sequences of <=12 (name, include, exclude) lookups over tokens {x,y,a,A,X,b,::,:,*,-,latest}, patterns valid per FilterConfig.Validate, half of the later lookups derived from an earlier one so that name+\"::\"+pattern coincides; non-trivial = name or a pattern contains \"::\"; distinct by lookup. " +
 		"discovery: <=12 DiscoverEndpoint steps (scripted listing or client failure, per-endpoint filter via Endpoint.ModelFilter / SetEndpointFilterConfig by name / by URL) on one long-lived service; non-trivial = a listed name or pattern contains \"::\" and a filter is active. " +
-		"apply: 2..5 filter passes (own patterns, own listing of 3..1500 names) run at the same instant through one shared GlobFilter, as the discovery service does for endpoints discovered concurrently; each result must be what the reference selects from that pass's own listing.")
+		"apply: 2..5 filter passes (own patterns, own listing of 3..1500 names) run at the same instant through one shared GlobFilter, as the discovery service does for endpoints discovered concurrently; each result must be what the reference selects from that pass's own listing. " +
+		"refresh: an endpoint's listing (1..600 stable names plus names that come and go) is re-registered 20..200 times while 2..8 readers look the stable names up (GetEndpointsForModel / IsModelAvailable) on the memory and the unified registry: no lookup may miss a name the endpoint lists before and after every refresh. " +
+		"wire: the production assembly with periodic model discovery (150 ms) in front of 1..3 real backends of types {openai-compatible, ollama, vllm, lm-studio, auto}; each backend's listing changes 1..4 times (grows, shrinks, becomes empty, comes back) and after every change the registry must list exactly the latest listing within 4 s.")
 	rec.Assume("quiescence of the unified registry's background unification is detected by runtime.NumGoroutine returning to its pre-operation value; a mismatch is only reported after the observation has additionally been stable over repeated polls (<=5 s)")
 	rec.Assume("lookup semantics asserted: plain registry = exact, case-sensitive names. Unified registry: a name some endpoint currently lists must return exactly the endpoints listing that exact name; for a name nobody lists (alias / case-insensitive fallback, undocumented) only 'every returned endpoint currently lists a name that is case-insensitively equal or shares a digest' is asserted")
 	rec.Assume("unified catalogue: each source endpoint's native name must be in that endpoint's last successful listing, and each (endpoint, name) pair must be covered by a unified model that has the endpoint as a source and carries the name as id, alias or native name; ids/aliases themselves are not compared")
@@ -41,6 +43,12 @@ func TestC10(t *testing.T) {
 		return
 	}
 	if ev.Replay(t, rec, "apply", runApply) {
+		return
+	}
+	if ev.Replay(t, rec, "refresh", runRefresh) {
+		return
+	}
+	if ev.Replay(t, rec, "wire", runWire) {
 		return
 	}
 	if ev.IsReplay() {
@@ -65,4 +73,6 @@ func TestC10(t *testing.T) {
 	ev.Check(t, rec, "filter", rec.Pick(25000, 320000), genFilterCase, runFilterCase)
 	ev.Check(t, rec, "discovery", rec.Pick(900, 10000), genDiscoveryCase, runDiscoveryCase)
 	ev.Check(t, rec, "apply", rec.Pick(120, 3000), genApply, runApply)
+	ev.Check(t, rec, "refresh", rec.Pick(60, 1500), genRefresh, runRefresh)
+	ev.Check(t, rec, "wire", rec.Pick(12, 300), genWire, runWire)
 }
